@@ -19,9 +19,11 @@ from .facts import Body, callee_def, short
 
 MAX_BLOCKS = 160
 MAX_DEPTH = 3
-MAX_TOTAL_BLOCKS = 4000
+MAX_ASYNC_BLOCKS = 1500      # a stage of a split `async fn` (its coroutine body) can be as large as the function it was cut out of
+MAX_TOTAL_BLOCKS = 9000
 WORKSPACE = ("s3s", "s3s_fs", "s3s_policy", "s3s_aws")
 
+_CTOR_SITE = {}
 _ANCHORS = [None]
 _RECORDED = [None]
 
@@ -109,7 +111,7 @@ def _async_target(db, body, t, policy):
     if agg is None:
         return None
     c = db.bodies.get(agg.get("def") or "")
-    if c is None or len(c.blocks) > 3 * MAX_BLOCKS:
+    if c is None or len(c.blocks) > MAX_ASYNC_BLOCKS:
         return None
     env_ops = []
     for o in agg["ops"]:
@@ -117,6 +119,7 @@ def _async_target(db, body, t, policy):
         if p is None or p["proj"] or not (1 <= p["l"] <= h.raw["argc"]):
             return None
         env_ops.append(ht["args"][p["l"] - 1])
+    _CTOR_SITE[(body.name, id(t))] = df["bi"]
     return h, c, env_ops
 
 
@@ -167,6 +170,15 @@ def inline_raw(db, body, policy=default_policy, max_depth=MAX_DEPTH):
                 continue
             hfn, callee, env_ops = tgt
             is_async = True
+            # the call that built the future only moved the arguments into it: it becomes an aggregate, so that a `&mut` argument is not
+            # taken for a mutation at that point
+            cbi = _CTOR_SITE.get((body.name, id(t)))
+            if cbi is not None and cbi < len(blocks) and blocks[cbi]["term"].get("k") == "call" and \
+                    (blocks[cbi]["term"]["callee"].get("resolved") or blocks[cbi]["term"]["callee"].get("def")) == hfn.name and blocks[cbi]["term"].get("t", -1) >= 0:
+                ct = blocks[cbi]["term"]
+                blocks[cbi]["stmts"].append({"dst": copy.deepcopy(ct["dst"]), "rv": {"k": "agg", "agg": "coroutine", "def": callee.name, "ops": copy.deepcopy(ct["args"])},
+                                             "line": (ct.get("span") or {}).get("line", 0), "inl": "future"})
+                blocks[cbi]["term"] = {"k": "goto", "t": ct["t"], "inl_future": {"callee": hfn.name, "span": ct.get("span")}}
         else:
             callee = db.bodies.get(cal.get("resolved") or "") or db.bodies.get(cal.get("def") or "")
             if callee is None or callee.name in stack or cal.get("virtual"):
@@ -196,8 +208,9 @@ def inline_raw(db, body, policy=default_policy, max_depth=MAX_DEPTH):
         dst, succ, span = t["dst"], t["t"], t.get("span")
         bl["term"] = {"k": "goto", "t": B0, "inl_call": {"callee": callee.name, "span": span}}
         cfile = craw["span"]["file"]
-        for cb in craw["blocks"]:
+        for ci, cb in enumerate(craw["blocks"]):
             nb = _remap(cb, lmap)
+            nb.setdefault("orig", [callee.name, ci])      # which block of which function this is a copy of
             for st in nb["stmts"]:
                 st.setdefault("file", cfile)
             _remap_term_blocks(nb["term"], B0)
@@ -441,12 +454,54 @@ def inlined(db, body, policy=default_policy):
     if not names:
         _CACHE[key] = body
         return body
+    # an awaited `async fn` helper inside an inlined stage is only visible once the stage is part of the body: repeat on the result
+    for _ in range(2):
+        tmp = Body.from_raw(raw, body.crate)
+        tmp.children = list(body.children) + [c for c in extra if c not in body.children]
+        pending = [t for _, t in tmp.calls() if callee_def(t).endswith("future::future::Future::poll") and _async_target(db, tmp, t, policy) is not None and
+                   _async_target(db, tmp, t, policy)[1].name not in names]
+        if not pending:
+            break
+        raw2, names2, extra2 = inline_raw(db, tmp, policy)
+        if not names2:
+            break
+        raw, names, extra = raw2, names + [n for n in names2 if n not in names], extra + [c for c in extra2 if c not in extra]
     nb = Body.from_raw(raw, body.crate)
     nb.children = list(body.children) + [c for c in extra if c not in body.children]
     nb.inlined_from = names
     nb.original = body
     _CACHE[key] = nb
     return nb
+
+
+def copies_of(db, ib, name, bi):
+    """blocks of the inlined body `ib` that are copies of block `bi` of function `name`"""
+    return [i for i, bl in enumerate(ib.blocks) if not bl["cleanup"] and bl.get("orig") == [name, bi]]
+
+
+def contexts_of(db, b, bi):
+    """(inlined owner body, block) pairs in which block `bi` of helper body `b` ends up once helpers are inlined into the functions that own
+    them; [] when `b` is not a helper or some owner does not absorb it"""
+    out = []
+    owners = top_owners(db, b)
+    if owners == {db.root_of(b).name}:
+        return []
+    for on in sorted(owners):
+        root = db.bodies.get(on)
+        if root is None:
+            return []
+        hit = False
+        for x in db.nested(root):
+            ib = inlined(db, x)
+            if ib is x:
+                continue
+            cs = copies_of(db, ib, b.name, bi)
+            if cs:
+                hit = True
+                out += [(ib, c) for c in cs]
+        if not hit:
+            return []
+    return out
 
 
 def absorbers(db, b):
